@@ -48,6 +48,10 @@ type c09Pod struct {
 	numa      []int32
 	hasOvh    bool     // spec.overhead declared (sandboxed RuntimeClass)
 	ovh       [2]int64 // cpu milli, memory bytes; -1 = the key is absent from spec.overhead
+	// term: metadata.deletionTimestamp is set (graceful termination / a finalizer holds the pod) while the pod is still
+	// Running or Pending. The plugins and their helpers never read DeletionTimestamp, so such a pod is charged like any
+	// other pod of its phase: the flag is NOT part of the ops (the model does not know it) and NOT read by the oracle.
+	term bool
 }
 
 type c09Met struct {
@@ -181,6 +185,12 @@ func c09Build(s *c09Scn) (*configuration.ColocationStrategy, *corev1.Node, *core
 			pod.Spec.Priority = &v
 		}
 		pod.Status.Phase = phases[p.phase]
+		if p.term {
+			grace := int64(3600)
+			pod.DeletionTimestamp = &metav1.Time{Time: time.Unix(c09Now-30, 0)}
+			pod.DeletionGracePeriodSeconds = &grace
+			pod.Finalizers = []string{"verif.koordinator.sh/hold"}
+		}
 		if p.kubeSet {
 			pod.Status.QOSClass = kubes[p.kube]
 		}
@@ -579,6 +589,9 @@ func (s *c09Scn) consumption(d int, unit int64, share c09Share, dangShare func(x
 	return c
 }
 
+// c09TermNote is appended to the text of the unclassified upper-bound failures (set by c09Oracle for the scenario at hand).
+var c09TermNote string
+
 // checkDim evaluates the bounds for one published amount.
 func c09CheckDim(h *vHarness, where string, d int, pol int, thr, capPct int64, capV, marginV int64, limit int64, c c09Cons, out int64) {
 	if out < 0 {
@@ -620,12 +633,12 @@ func c09CheckDim(h *vHarness, where string, d int, pol int, thr, capPct int64, c
 	}
 	alt := c09Max(base-hpOf(pol, true), 0) // the amount if HP pods without metrics were not charged at all
 	if c.anyNoMetric && pol != 1 && out == alt && (capPct < 0 || alt < limit) {
-		h.Fail("C09:no-metric-not-charged", "%s dim %d policy %d: published %d > bound %d; explained by not charging the request of HP pods without metrics",
-			where, d, pol, out, bound)
+		h.Fail("C09:no-metric-not-charged", "%s dim %d policy %d: published %d > bound %d; explained by not charging the request of HP pods without metrics%s",
+			where, d, pol, out, bound, c09TermNote)
 		return
 	}
-	h.Fail("C09:batch-upper", "%s dim %d policy %d: published %d > cap %d - margin %d - max(sys %d, reserved %d) - HP %d",
-		where, d, pol, out, capV, marginV, c.sys, c.reserved, hpOf(pol, false))
+	h.Fail("C09:batch-upper", "%s dim %d policy %d: published %d > cap %d - margin %d - max(sys %d, reserved %d) - HP %d%s",
+		where, d, pol, out, capV, marginV, c.sys, c.reserved, hpOf(pol, false), c09TermNote)
 }
 
 func c09EffPol(p int) int { // 3 (nil) and 4 (unknown string) mean the default "usage"
@@ -658,6 +671,8 @@ func c09Oracle(h *vHarness, s *c09Scn, r *c09Res) {
 	out := [2]int64{r.cpu, r.mem}
 	capN := [2]int64{c09P0(s.capC), c09P0(s.capM)}
 	id := func(x int64) int64 { return x }
+	c09TermNote = s.termNote()
+	defer func() { c09TermNote = "" }()
 	for d := 0; d < 2; d++ {
 		margin := c09MulPct(capN[d], 100-thr[d])
 		if thr[d] >= 0 && thr[d] <= 100 && !(margin >= 0 && margin <= capN[d]) {
@@ -946,7 +961,37 @@ func c09Gen(r *vRand) *c09Scn {
 		s.hasUpd = true
 		s.upd = c09Now - r.Int63n(lim)
 	}
+	// ~15 % of the Running/Pending pods (all priority classes) are terminating: deletionTimestamp set, still in their
+	// phase. Drawn from a side generator derived from r's state so that every other choice of the stream (and of the
+	// monotonicity bump that follows) stays bit-identical to the earlier rounds.
+	tr := &vRand{s: r.s ^ 0xD6E8FEB86659FD93}
+	tr.next()
+	for i := range s.pods {
+		if s.pods[i].phase <= 1 && tr.Chance(3, 20) {
+			s.pods[i].term = true
+		}
+	}
 	return s
+}
+
+// termNote names the terminating Running/Pending pods of the scenario (diagnosis text of a failure only).
+func (s *c09Scn) termNote() string {
+	var hpN, lpN []string
+	for i := range s.pods {
+		p := &s.pods[i]
+		if !p.term || p.phase > 1 {
+			continue
+		}
+		if hp, _ := p.class(); hp {
+			hpN = append(hpN, fmt.Sprintf("p%d", p.key))
+		} else {
+			lpN = append(lpN, fmt.Sprintf("p%d", p.key))
+		}
+	}
+	if len(hpN)+len(lpN) == 0 {
+		return ""
+	}
+	return fmt.Sprintf(" [pods with deletionTimestamp set, still Running/Pending and charged like any other: HP %v LP %v]", hpN, lpN)
 }
 
 func (s *c09Scn) clone() *c09Scn {
@@ -1068,6 +1113,16 @@ func TestVerifC09(t *testing.T) {
 		c09Oracle(h, s, &res)
 		h.Tag(fmt.Sprintf("pods:%d", len(s.pods)))
 		h.Tag(fmt.Sprintf("pol:%d/%d", c09EffPol(s.cpuPol), c09EffPol(s.memPol)))
+		for i := range s.pods {
+			if p := &s.pods[i]; p.term {
+				hp, _ := p.class()
+				hasMet := false
+				for _, m := range s.mets {
+					hasMet = hasMet || m.key == p.key
+				}
+				h.Tag(fmt.Sprintf("terminating-pod:hp=%v,metric=%v,zones=%v", hp, hasMet, s.nrt == 1 && len(s.zones) > 0))
+			}
+		}
 		if s.annoKind == 1 || s.annoKind == 2 {
 			h.Tag(fmt.Sprintf("reservation-anno:kind=%d,applyPolicy=%d", s.annoKind, s.annoPolicy))
 		}
